@@ -160,6 +160,10 @@ func capture(t *Task, r any) {
 				if i := strings.LastIndex(fn, "/"); i >= 0 {
 					fn = fn[i+1:]
 				}
+				// drop the package qualifier: the function, not which grammar
+				if i := strings.Index(fn, "."); i >= 0 {
+					fn = fn[i+1:]
+				}
 				if i := strings.Index(fn, "("); i > 0 && !strings.HasPrefix(fn[i:], "(*") {
 					fn = fn[:i]
 				} else if j := strings.LastIndex(fn, "("); j > 0 {
